@@ -1302,11 +1302,10 @@ def mutate(rng, d):
             if rng.random() < 0.5:
                 lf["shape"] = lf["shape"] + [rng.choice([1, 2, 3])]
     elif kind == "shrink-lazy":
-        lz = []
-        walk_desc(d, lambda x, p: lz.append(x) if x["k"] == "lazy" and len(x["members"]) > 1 else None)
-        if lz:
-            z = rng.choice(lz)
-            z["members"] = z["members"][:rng.randrange(1, len(z["members"]))]
+        if d["k"] != "lazy" or len(d["members"]) < 2:
+            d = gen_lazy(rng, rng.choice([[2], [3], [2, 2], [3, 1]]), 0, {"max_depth": 2, "kinds": ["td", "ntd", "lazy"]})
+        if d["k"] == "lazy" and len(d["members"]) > 1:
+            # the first save gets MORE members than the second: the caller swaps the two
             kind = "shrink-lazy!"
     elif kind == "swap-payload":
         nts = []
@@ -1327,6 +1326,17 @@ def mutate(rng, d):
     return d, kind
 
 
+def gen_resave(rng):
+    """(first, second): second is saved over the directory of first"""
+    d1 = gen_structure(rng)
+    d2, kind = mutate(rng, d1)
+    if kind == "shrink-lazy!":
+        d1 = json.loads(json.dumps(d2))
+        d2["members"] = d2["members"][:rng.randrange(1, len(d2["members"]))]
+        d2 = reseed(rng, d2)
+    return d1, d2, kind
+
+
 def fix_lazy_bs(d):
     """after shrinking a lazy stack nested in a tensordict the parents' batch sizes no longer fit: only shrink root stacks"""
     return d
@@ -1340,6 +1350,9 @@ def resave_case(R, case, model_q):
         if o1.get("outcome") != "ok":
             return
         o, _, _ = full_obs(d2, api, case.get("num_threads", 0), case.get("order"), False, False, pre=root, also=(d1,))
+        if "build_error" in o:
+            R.count("resave:unbuildable")
+            return
         R.traces += 1
         c = dict(case)
         if o["outcome"] != "ok":
@@ -1353,7 +1366,10 @@ def resave_case(R, case, model_q):
             df = obs_diff(exp, ld)
             if df:
                 fail(R, "resave:", "loaded-differs", c, {"path": df[0], "what": df[1], "original": df[2], "loaded": df[3], "stale": True})
-        model_q.append(("resave", c, o))
+        if case.get("num_threads", 0) <= 1:
+            # with a pool, a not-in-place save rewrites other.pickle of every NonTensorData with its leaked `_metadata`
+            # (timing dependent, see normalise_dir): the stale-pickle comparison with the model is sequential only
+            model_q.append(("resave", c, o))
     finally:
         shutil.rmtree(root, ignore_errors=True)
 
